@@ -158,6 +158,10 @@ def wf_input(case):
     else:
         xs = vals
     res = {'xs': xs, 'c': case['conc'] if case['conc_form'] == 'expr' else 0}
+    if case['conc_form'] == 'expr' and case['conc'] and case['seed'] % 4 == 0:
+        # regression of repo fix 6a8f54db: the schema type "integer" accepts 2.0; the value must behave as 2
+        # (before the fix the slice in _get_next_indexes raised TypeError and the task stayed IDLE for ever)
+        res['c'] = float(case['conc'])
     if 'conc_bad' in ev:
         res['c'] = ev['conc_bad']
     elif ev.get('conc_div'):
